@@ -80,13 +80,16 @@ Record deep_t : Type := mkDeep {
   d_handlers : list hkind; d_ids : list idk; d_oh : openh; d_ps : pstate;
   d_secured : bool; d_tlsp : bool; d_tlsf : bool; d_tlss : bool; d_mand : bool; d_dis : bool; d_rp : bool
 }.
+(* the id handlers of the library (the user's id handler, IKUser, is registered at any time and survives
+   a reset: it is not part of the negotiation phase) *)
+Definition libids (l : list (idk * bool)) : list idk := filter (fun k => negb (is_user_id k)) (map fst l).
 Definition deep (s : state) : deep_t :=
-  mkDeep (map fst (handlers s)) (map fst (idhandlers s)) (oh s) (ps s)
+  mkDeep (map fst (handlers s)) (libids (idhandlers s)) (oh s) (ps s)
          (secured s) (tls_present s) (tls_failed s) (tls_support s) (f_tls_mandatory s) (f_tls_disabled s)
          (reset_parser s).
 
 Lemma deep_fields s s' : deep s' = deep s ->
-  map fst (handlers s') = map fst (handlers s) /\ map fst (idhandlers s') = map fst (idhandlers s) /\
+  map fst (handlers s') = map fst (handlers s) /\ libids (idhandlers s') = libids (idhandlers s) /\
   oh s' = oh s /\ ps s' = ps s /\ secured s' = secured s /\ tls_present s' = tls_present s /\
   tls_failed s' = tls_failed s /\ tls_support s' = tls_support s /\
   f_tls_mandatory s' = f_tls_mandatory s /\ f_tls_disabled s' = f_tls_disabled s /\ reset_parser s' = reset_parser s.
@@ -433,7 +436,7 @@ Lemma idk_eqb_eq a b : idk_eqb a b = true <-> a = b.
 Proof. destruct a, b; cbn; split; congruence. Qed.
 
 Definition hkinds (s : state) : list hkind := map fst (handlers s).
-Definition idkinds (s : state) : list idk := map fst (idhandlers s).
+Definition idkinds (s : state) : list idk := libids (idhandlers s).
 
 Lemma h_has_In k s : h_has k s = true <-> In k (hkinds s).
 Proof.
@@ -441,11 +444,11 @@ Proof.
   - intros [x [Hx E]]. apply hkind_eqb_eq in E. subst. now apply in_map.
   - intros H. apply in_map_iff in H. destruct H as [x [E Hx]]. exists x. split; [assumption|]. subst. apply hkind_eqb_refl.
 Qed.
-Lemma id_has_In k s : id_has k s = true <-> In k (idkinds s).
+Lemma id_has_In k s : is_user_id k = false -> (id_has k s = true <-> In k (idkinds s)).
 Proof.
-  unfold id_has, idkinds. rewrite existsb_exists. split.
-  - intros [x [Hx E]]. apply idk_eqb_eq in E. subst. now apply in_map.
-  - intros H. apply in_map_iff in H. destruct H as [x [E Hx]]. exists x. split; [assumption|]. subst. now apply idk_eqb_eq.
+  intros U. unfold id_has, idkinds, libids. rewrite existsb_exists, filter_In. split.
+  - intros [x [Hx E]]. apply idk_eqb_eq in E. subst. split; [now apply in_map|rewrite U; reflexivity].
+  - intros [H _]. apply in_map_iff in H. destruct H as [x [E Hx]]. exists x. split; [assumption|]. subst. now apply idk_eqb_eq.
 Qed.
 
 Lemma hkinds_h_add k s k' : In k' (hkinds (h_add k s)) <-> In k' (hkinds s) \/ k' = k.
@@ -462,15 +465,21 @@ Proof.
   - intros [[x [E Hx]] Hn]. exists x. split; [assumption|]. apply filter_In. split; [assumption|]. subst.
     destruct (hkind_eqb k (fst x)) eqn:Q; [|reflexivity]. apply hkind_eqb_eq in Q. congruence.
 Qed.
-Lemma idkinds_id_add k s k' : In k' (idkinds (id_add k s)) <-> In k' (idkinds s) \/ k' = k.
+Lemma idkinds_id_add k s k' : In k' (idkinds (id_add k s)) -> In k' (idkinds s) \/ k' = k.
 Proof.
-  unfold id_add. destruct (id_has k s) eqn:E.
-  - split; [auto|]. intros [H|H]; [assumption|]. subst. now apply id_has_In.
-  - unfold idkinds. sproj. rewrite map_app, in_app_iff. cbn. intuition.
+  unfold id_add. destruct (id_has k s) eqn:E; [auto|].
+  unfold idkinds, libids. sproj. rewrite map_app, filter_app, in_app_iff. cbn [map filter fst].
+  intros [H|H]; [left; exact H|]. destruct (negb (is_user_id k)); [destruct H as [H|[]]; auto|destruct H].
+Qed.
+Lemma idkinds_id_add_user s : idkinds (id_add IKUser s) = idkinds s.
+Proof.
+  unfold id_add. destruct (id_has IKUser s); [reflexivity|].
+  unfold idkinds, libids. sproj. rewrite map_app, filter_app. cbn. apply app_nil_r.
 Qed.
 Lemma idkinds_id_del k s k' : In k' (idkinds (id_del k s)) -> In k' (idkinds s).
 Proof.
-  unfold id_del, idkinds. sproj. rewrite !in_map_iff. intros [x [E Hx]]. apply filter_In in Hx. exists x. tauto.
+  unfold id_del, idkinds, libids. sproj. rewrite !filter_In, !in_map_iff. intros [[x [E Hx]] U]. apply filter_In in Hx.
+  split; [exists x; tauto|exact U].
 Qed.
 
 (* the rest of the deep view is untouched by the handler-list functions *)
@@ -486,6 +495,8 @@ Lemma id_add_deep k s : deep (id_add k s) =
   mkDeep (d_handlers (deep s)) (idkinds (id_add k s)) (d_oh (deep s)) (d_ps (deep s)) (d_secured (deep s)) (d_tlsp (deep s))
          (d_tlsf (deep s)) (d_tlss (deep s)) (d_mand (deep s)) (d_dis (deep s)) (d_rp (deep s)).
 Proof. unfold id_add. destruct (id_has k s); reflexivity. Qed.
+Lemma id_add_user_deep s : deep (id_add IKUser s) = deep s.
+Proof. rewrite id_add_deep, idkinds_id_add_user. reflexivity. Qed.
 Lemma id_del_deep k s : deep (id_del k s) =
   mkDeep (d_handlers (deep s)) (idkinds (id_del k s)) (d_oh (deep s)) (d_ps (deep s)) (d_secured (deep s)) (d_tlsp (deep s))
          (d_tlsf (deep s)) (d_tlss (deep s)) (d_mand (deep s)) (d_dis (deep s)) (d_rp (deep s)).
@@ -1396,11 +1407,11 @@ Ltac peel4 :=
 Ltac finish ::= repeat first [ assumption | peel4 | use_eq | case_goal ].
 
 Definition idbody (k : idk) (now : Z) (e : elem) (s : state) : R :=
-  let '(s1, o1) := call_id_handler k now e s in (id_del k s1, o1).
-
+  let '(s1, o1) := call_id_handler k now e s in ((if is_user_id k then s1 else id_del k s1), o1).
 Lemma idbody_inv p now e k s acc : ArmS MChunk s -> HE s -> Inv MChunk p s acc -> RInv MChunk p acc (idbody k now e s).
 Proof.
-  intros A He H. unfold idbody. destruct k; cbv beta iota delta [call_id_handler].
+  intros A He H. unfold idbody. destruct k; cbv beta iota delta [call_id_handler is_user_id].
+  4: { unfold say, RInv. cbn [fst snd]. apply Inv_neutral; [reflexivity|exact H]. }
   all: iwalk.
   all: leaf.
 Qed.
@@ -1497,7 +1508,7 @@ Proof. unfold h_add. case_goal; [auto|]. sproj. intros H. apply in_or_app. left.
 
 Lemma idbody_hl now e k s x : In x (handlers s) -> In x (handlers (fst (idbody k now e s))).
 Proof.
-  intros H. unfold idbody. destruct k; cbv beta iota zeta delta [call_id_handler]; unfold ret.
+  intros H. unfold idbody. destruct k; cbv beta iota zeta delta [call_id_handler is_user_id]; unfold ret, say.
   all: repeat (case_goal; cbv beta iota); cbn [fst]; rewrite ?id_del_hl; sproj;
     repeat match goal with
            | E : stream_negotiation_success ?X = (?s1, _) |- context [handlers ?s1] =>
@@ -1612,7 +1623,7 @@ Proof.
     - pose proof (core_fields _ _ C) as (F1 & _ & F3 & _ & _ & _ & _ & _ & _ & _ & F11 & _). rewrite <- F1, <- F3, <- F11.
       destruct (sns_spec y) as [(_ & _ & E)|(_ & s' & E & C' & _)]; rewrite E; cbn [fst]; [auto|].
       split; [change (c_st (core s') = st y)|split; [change (c_raw (core s') = is_raw y)|change (c_serr (core s') = g_serr (gh y))]]; rewrite C'; reflexivity. }
-  unfold idbody. destruct k; cbv beta iota zeta delta [call_id_handler]; unfold ret.
+  unfold idbody. destruct k; cbv beta iota zeta delta [call_id_handler is_user_id]; unfold ret, say.
   all: repeat (case_goal; cbv beta iota); cbn [fst];
     repeat match goal with
            | E : stream_negotiation_success ?X = (?s1, _) |- _ =>
@@ -1654,10 +1665,15 @@ Proof.
   assert (H1 : Inv MChunk p1 (fst r1) (acc ++ snd r1) /\ st (fst r1) = st sb /\ is_raw (fst r1) = is_raw sb /\
                g_serr (gh (fst r1)) = g_serr (gh sb) /\ (forall x, In x (handlers sb) -> In x (handlers (fst r1)))).
   { subst r1. destruct (idk_of (e_id e)) as [k|]; [destruct (id_has k sb) eqn:Hid|].
-    - change (let '(s1, o1) := call_id_handler k now e sb in (id_del k s1, o1)) with (idbody k now e sb).
-      apply id_has_In in Hid. destruct (idbody_st now e k sb) as (I1 & I2 & I3).
-      split; [|split; [exact I1|split; [exact I2|split; [exact I3|intros x; apply idbody_hl]]]].
-      apply idbody_inv; [exact (Inv_arm_of_id _ _ _ _ Hid Hb) | exact (Inv_HE _ _ _ Hb) | exact Hb].
+    - match goal with |- context [if is_user_id k && _ then _ else ?X] => change X with (idbody k now e sb) end.
+      destruct (is_user_id k) eqn:Uk; cbn [andb].
+      + (* the user's id handler: skipped before the connection is up, otherwise it only reports *)
+        destruct k; try discriminate Uk. destruct (negb (neg_done sb)); unfold idbody; cbv beta iota delta [call_id_handler is_user_id say];
+          cbn [ret fst snd]; [rewrite app_nil_r; auto|].
+        split; [apply Inv_neutral; [reflexivity|exact Hb]|auto].
+      + apply (id_has_In k sb Uk) in Hid. destruct (idbody_st now e k sb) as (I1 & I2 & I3).
+        split; [|split; [exact I1|split; [exact I2|split; [exact I3|intros x; apply idbody_hl]]]].
+        apply idbody_inv; [exact (Inv_arm_of_id _ _ _ _ Hid Hb) | exact (Inv_HE _ _ _ Hb) | exact Hb].
     - cbn [ret fst snd]. rewrite app_nil_r. auto.
     - cbn [ret fst snd]. rewrite app_nil_r. auto. }
   destruct r1 as [s1 o1]. cbn [fst snd] in H1. destruct H1 as (H1 & Est & Eraw & Egs & Hmono).
@@ -2023,7 +2039,8 @@ Proof.
 Qed.
 Lemma ps_idbody k now e x : PsR x (idbody k now e x).
 Proof.
-  unfold idbody. destruct k; cbv beta iota delta [call_id_handler].
+  unfold idbody. destruct k; cbv beta iota delta [call_id_handler is_user_id].
+  4: reflexivity.
   all: ps_walk x.
   all: ps_leaf.
 Qed.
@@ -2044,6 +2061,7 @@ Proof.
   lazymatch goal with |- ps (fst ?T) = _ => lazymatch T with match ?F with _ => _ end => set (r1 := F) end end.
   assert (P1 : ps (fst r1) = ps s).
   { subst r1. destruct (idk_of (e_id e)) as [k|]; [destruct (id_has k sb)|]; unfold ret; cbn [fst]; try exact Pb.
+    destruct (is_user_id k && negb (neg_done sb)); cbn [fst]; [exact Pb|].
     rewrite <- Pb. apply ps_idbody. }
   destruct r1 as [s1 o1]. cbn [fst] in P1.
   pose proof (ps_fold_visit now e (map fst (filter (fun x => snd x) (handlers s1))) s1 o1) as Q.
@@ -2636,15 +2654,21 @@ Proof.
     + intros _ Q. apply Hl in Q. discriminate Q.
 Qed.
 
+Lemma libids_user_filter l : libids (filter (fun x : idk * bool => idk_eqb (fst x) IKUser) l) = [].
+Proof.
+  unfold libids. induction l as [|[k b] l IH]; [reflexivity|].
+  cbn [filter fst]. destruct k; exact IH.
+Qed.
 Lemma conn_reset_facts s : st s = Disconnected ->
   st (conn_reset s) = Disconnected /\ neg_done (conn_reset s) = false /\ is_raw (conn_reset s) = is_raw s /\
   crashed (conn_reset s) = crashed s /\ gh (conn_reset s) = gh s /\
   f_tls_disabled (conn_reset s) = f_tls_disabled s /\ f_tls_mandatory (conn_reset s) = f_tls_mandatory s /\
   tls_support (conn_reset s) = false /\ secured (conn_reset s) = false /\ tls_failed (conn_reset s) = false /\
-  (forall k, In k (hkinds (conn_reset s)) -> k = HUser) /\ idhandlers (conn_reset s) = [] /\ stream_error (conn_reset s) = None /\
+  (forall k, In k (hkinds (conn_reset s)) -> k = HUser) /\ libids (idhandlers (conn_reset s)) = [] /\ stream_error (conn_reset s) = None /\
   cands (conn_reset s) = cands s /\ ps (conn_reset s) = ps s /\ tls_present (conn_reset s) = tls_present s.
 Proof.
-  intros E. unfold conn_reset. rewrite E. cbv zeta. do 10 (split; [first [reflexivity|exact E]|]). split; [|repeat split; reflexivity].
+  intros E. unfold conn_reset. rewrite E. cbv zeta. do 10 (split; [first [reflexivity|exact E]|]). split; [|split; [|repeat split; reflexivity]].
+  2: { cbn [idhandlers set_timed set_idhandlers]. apply libids_user_filter. }
   intros k Hk. unfold hkinds in Hk. cbn [handlers set_timed set_idhandlers set_handlers] in Hk. apply in_map_iff in Hk. destruct Hk as (x & <- & Hx). apply filter_In in Hx.
   destruct Hx as [_ Hx]. now apply hkind_eqb_eq.
 Qed.
@@ -2666,7 +2690,7 @@ Proof.
     { transitivity (mkCore Connecting (neg_done cr) (is_raw cr) true (crashed cr) (stream_error cr) true O O false None false); [reflexivity|].
       rewrite R2, R3, R4, R13. reflexivity. }
     assert (Df' : deep f = mkDeep (hkinds cr) [] h (ps s) false (tls_present s) false false (f_tls_mandatory s) (f_tls_disabled s) true).
-    { transitivity (mkDeep (hkinds cr) (map fst (idhandlers cr)) h (ps cr) (secured cr) (tls_present cr) (tls_failed cr) (tls_support cr) (f_tls_mandatory cr) (f_tls_disabled cr) true); [reflexivity|].
+    { transitivity (mkDeep (hkinds cr) (libids (idhandlers cr)) h (ps cr) (secured cr) (tls_present cr) (tls_failed cr) (tls_support cr) (f_tls_mandatory cr) (f_tls_disabled cr) true); [reflexivity|].
       rewrite R6, R7, R8, R9, R10, R12, R15, R16. reflexivity. }
     unfold Inv. rewrite Cf, Df'.
     apply InvV_connect_ok; try assumption.
@@ -2742,9 +2766,10 @@ Proof.
   - destruct (st s); cbn [ret fst snd]; first [exact H | apply Hpl; reflexivity].
   - destruct (st s); cbn [ret fst snd]; first [exact H | apply Hpl; reflexivity].
   - destruct (st s) eqn:E; cbn [ret fst snd]; try exact H.
-    set (s1 := if h then h_add HUser s else s).
+    set (s1 := if h then id_add IKUser (h_add HUser s) else s).
     assert (H1 : Inv MTop None s1 []).
-    { subst s1. destruct h; [|exact H]. apply Inv_h_add_pre; [reflexivity|discriminate|intros [Q|Q]; discriminate Q|exact H]. }
+    { subst s1. destruct h; [|exact H]. apply (Inv_frame _ _ (h_add HUser s)); [apply id_add_core|apply id_add_user_deep|].
+      apply Inv_h_add_pre; [reflexivity|discriminate|intros [Q|Q]; discriminate Q|exact H]. }
     clearbody s1.
     apply (Inv_frame_fun _ _ (fun x => set_user_timed t (set_user_handler h x))); [intro; reflexivity|intro; reflexivity|].
     destruct t; [|exact H1]. apply (Inv_frame _ _ s1); [apply timed_add_core|apply timed_add_deep|exact H1].
